@@ -15,6 +15,7 @@
      walk of UpdateTrackIDs visits them. *)
 From Coq Require Import ZArith List Bool Permutation.
 From FT Require Import Base.Dict Model.Edit Model.EditExec Proofs.EditInv Proofs.EditBook.
+From FT Require Proofs.EditIssuedIds.
 From FT Require Proofs.EditNodeBasic Proofs.EditBook Proofs.EditUDN Proofs.EditUAN Proofs.EditWFEdge.
 From FT Require Gen.History_gen Proofs.HistoryGen Props.C02.
 From FT Require Proofs.EditBook Proofs.EditWFNode.
@@ -124,6 +125,15 @@ Theorem C06_fresh_node_ids : forall st k st' ids,
   NoDup ids /\ length ids = k /\ (forall i, In i ids -> ~ is_node st i) /\
   g st' = g st /\ bk st' = bk st /\ nctr st <= nctr st'.
 Proof. exact get_new_node_ids_spec. Qed.
+(* ... and they lie between the counter before and after the call, so two successive calls never issue the
+   same id, whether or not the first batch was added to the graph (Proofs/EditIssuedIds.v) *)
+Theorem C06_issued_range : forall st k st' ids, get_new_node_ids st k = (st', ids) ->
+  forall i, In i ids -> nctr st <= i < nctr st'.
+Proof. exact FT.Proofs.EditIssuedIds.issued_range. Qed.
+Theorem C06_issued_twice_disjoint : forall st k1 s1 ids1 k2 s2 ids2,
+  get_new_node_ids st k1 = (s1, ids1) -> get_new_node_ids s1 k2 = (s2, ids2) ->
+  forall i, In i ids1 -> ~ In i ids2.
+Proof. exact FT.Proofs.EditIssuedIds.issued_twice_disjoint. Qed.
 
 (* ---- non-vacuity: a three-node state (track 1 = 1 -> 2, track 2 = 3) ---- *)
 Definition ex_feats : feats :=
@@ -376,6 +386,8 @@ Example C06_example_queries :
   snd (get_new_node_ids ex_state 3) = [5; 6; 4].
 Proof. vm_compute. repeat split; reflexivity. Qed.
 
+Print Assumptions C06_issued_range.
+Print Assumptions C06_issued_twice_disjoint.
 Print Assumptions C06_book_add_node.
 Print Assumptions C06_book_del_node.
 Print Assumptions C06_book_edge_attr_seg.
